@@ -1074,7 +1074,7 @@ def translate_dispatch(ent, allmeta):
     """a dispatcher over a family of size-specialised pieces: `f k junk key` calls the piece
     specialised to key size `k` on the low `8k` bits of `key`"""
     W = ent["width"]
-    lines = ["def %s (k : Nat) (junk : BitVec %d) (key : BitVec %d) : BitVec %d :=" % (ent["lean"], ent["junkwidth"], W, ent["outwidth"]), "  match k with"]
+    lines = ["@[gen_unfold] def %s (k : Nat) (junk : BitVec %d) (key : BitVec %d) : BitVec %d :=" % (ent["lean"], ent["junkwidth"], W, ent["outwidth"]), "  match k with"]
     ks = sorted(int(k) for k in ent["cases"])
     uses_junk = False
     for k in ks:
@@ -1282,9 +1282,10 @@ def translate(tu, ent, registry, sigs, lane=None, probe=False):
     for lname_t, (tab, w) in getattr(ex, "tables", {}).items():
         lines.append("def %s : List (BitVec %d) := [%s]" % (lname_t, w, ", ".join("0x%x#%d" % (x, w) for x in tab)))
     for (sname, sargs, w, body_) in ex.stages:
-        lines.append("def %s %s : %s :=\n  %s" % (sname, " ".join("(%s : %s)" % (a_, lean_ty(aw)) for a_, aw in sargs), lean_ty(w), body_))
+        lines.append("@[gen_unfold] def %s %s : %s :=\n  %s" % (sname, " ".join("(%s : %s)" % (a_, lean_ty(aw)) for a_, aw in sargs), lean_ty(w), body_))
     rty = " × ".join(lean_ty(o[2].w) for o in outs)
-    hdr = "def %s %s : %s :=" % (lname, " ".join("(%s : %s)" % (a_, lean_ty(w)) for a_, w in sig), rty)
+    attr = "" if (ent.get("lane") and piece is None) else "@[gen_unfold] "
+    hdr = attr + "def %s %s : %s :=" % (lname, " ".join("(%s : %s)" % (a_, lean_ty(w)) for a_, w in sig), rty)
     body_ = []
     for (ln, sn, sa) in ex.lets:
         if sn is None: body_.append("  let %s := %s" % (ln, sa))
@@ -1331,6 +1332,7 @@ def main():
     for mod in man["modules"]:
         imports = mod.get("imports", [])
         texts = ["/- GENERATED by tools/c2lean.py from %s -- do not edit -/" % ", ".join(sorted(set(e["file"] for e in mod["entries"])))]
+        texts.append("import SkinnyVerif.Basic.Attr")
         for im in imports: texts.append("import SkinnyVerif.Gen." + im)
         texts += ["namespace SkinnyVerif.Gen", ""]
         for ent in mod["entries"]:
